@@ -93,7 +93,13 @@ async fn run(case: Value, base: &std::path::Path) -> Value {
 						..Default::default()
 					},
 				});
-				let (jid, job) = action.create_job(cmd);
+				// (optionally from another OS thread: ids must be unique whichever thread creates the job)
+				let (jid, job) = if act["thread"].as_bool().unwrap_or(false) {
+					let h = tokio::runtime::Handle::current();
+					std::thread::scope(|sc| sc.spawn(|| { let _g = h.enter(); action.create_job(cmd) }).join().unwrap())
+				} else {
+					action.create_job(cmd)
+				};
 				let (script, out3) = (act["script"].as_str().unwrap_or("").to_owned(), out2.clone());
 				job.set_spawn_hook(move |c, _| {
 					c.command_mut().env("WXH_MODE", "run").env("WXH_SCRIPT", &script).env("WXH_OUT", &out3);
